@@ -77,11 +77,11 @@ using WObj = trompeloeil::deathwatched<MWb>;
 using E = std::unique_ptr<trompeloeil::expectation>;
 
 enum { S_A0 = 0, S_Q1 = 1, S_Q2 = 2, S_D = 3, S_Q3 = 4, S_FIRST_CREATED = 5 };
-enum { NOPS = 17, MAXT = 3, MAXOPS = 2 };
+enum { NOPS = 18, MAXT = 3, MAXOPS = 2 };
 static const char* OPN[NOPS] = {"call m.f(1)", "call m.f(0)", "call m.g(1)", "create REQUIRE_CALL(m,f(1))", "create+release ALLOW_CALL(m,f(_))",
   "create REQUIRE_CALL(m,g(_)).IN_SEQUENCE(s).TIMES(2)", "create REQUIRE_CALL(m,g(_)).TIMES(2).IN_SEQUENCE(s)", "create REQUIRE_CALL(m,g(_)).IN_SEQUENCE(s,s2)",
   "release Q1", "release A0", "Q2.is_satisfied();Q2.is_saturated()", "s.is_completed()", "delete w", "release D", "destroy m2",
-  "create REQUIRE_CALL(m,g(_)).IN_SEQUENCE(s3).TIMES(AT_MOST(2))", "s3.is_completed()"};
+  "create REQUIRE_CALL(m,g(_)).IN_SEQUENCE(s3).TIMES(AT_MOST(2))", "s3.is_completed()", "release Q3 (expectation on m2)"};
 
 struct Program { int nt; int nops[MAXT]; int op[MAXT][MAXOPS]; };
 static std::string prog_str(const Program& p) {
@@ -167,6 +167,7 @@ static ExecResult execute(const Program& p, const std::vector<int>& choices) {
         case 14: m2.reset(); r = "dm:" + take_reports(t); break;
         case 15: slot[cs] = NAMED_REQUIRE_CALL(*m, g(trompeloeil::_)).IN_SEQUENCE(*s3).TIMES(AT_MOST(2)).RETURN(v); r = "ok"; break;
         case 16: r = std::string("c:") + (s3->is_completed() ? '1' : '0'); break;
+        case 17: slot[S_Q3].reset(); r = "rel:" + take_reports(t); break;
       }
       R.res[t].push_back(r);
     }
@@ -223,6 +224,7 @@ static std::vector<Micro> micro_of(int op, int cs) {
     case 14: return {{MI_DECOM_ACT, 1, F1, 0}, {MI_DECOM_SAT, 1, F1, 0}};
     case 15: return {{MI_BEGIN_REG, cs, 7, 1, 2 /*sequence s3*/}, {MI_BOUNDS, cs, 0, 2}, {MI_HOOK, cs, 0, 0}};
     case 16: return {{MI_QCOMP, 2, 0, 0}};
+    case 17: return {{MI_RELEASE, S_Q3, 0, 0}};
   }
   return {};
 }
@@ -357,7 +359,7 @@ static void explore(const Program& p, const std::set<std::string>& allowed, std:
 static bool valid_program(const Program& p) {
   int cnt[NOPS] = {0};
   for (int t = 0; t < p.nt; ++t) for (int j = 0; j < p.nops[t]; ++j) cnt[p.op[t][j]]++;
-  for (int d : {8, 9, 12, 13, 14}) if (cnt[d] > 1) return false;  // an object is destroyed at most once (caller obligation)
+  for (int d : {8, 9, 12, 13, 14, 17}) if (cnt[d] > 1) return false;  // an object is destroyed at most once (caller obligation)
   return true;
 }
 static std::vector<Program> programs_of(const std::string& shape, const std::vector<int>& ops, long* filtered) {
